@@ -16,6 +16,7 @@ RULE = ("real DensityEstimation objects driven at their public methods on genera
         "StandardCombi runs followed by combi(points). Oracle: Kronecker hat Gram matrix + lambda I, mean-of-hats right-hand side, "
         "agreement of all hat evaluators, normalisation and proportionality of the returned surpluses, combined interpolant. "
         "distinct = digest(path, grid, data digest); non-trivial = anisotropic or non-uniform grid with >=3 points in a dimension")
+RULE += (" In 45% of the dimension-wise cases other component grids of the SAME iteration (nearly the same coordinates, other neighbours) are computed with the operation object first.")
 RULE += (" " + 'One operation object is used for several level vectors in a row (permuted level vectors with equal point counts, incl. (4,5)/(5,4) above the 200-point switch); in combination runs the surpluses of every component grid are compared with the reference solution of its own system.')
 REQUIRED = ["R_equals_gram_uniform", "R_equals_gram_dimwise", "R_masslumped", "R_spd", "b_uniform", "b_dimwise",
             "hat_evaluators_agree", "surpluses_match_reference_uniform", "surpluses_match_reference_dimwise",
@@ -175,6 +176,8 @@ def run_dimwise(case, res):
         N = int(np.prod([n - 2 for n in ns]))
         if 1 <= N <= 260:
             break
+    if rng.random() < 0.12:
+        d, ns = 2, rng.choice([[17, 17], [16, 17], [17, 16]])     # above the 200-point switch of the right-hand side
     xs, levs = [], []
     for k in range(d):
         P, L = trees.gen_tree(rng, 0.0, 1.0, n_points=ns[k])
@@ -200,6 +203,25 @@ def run_dimwise(case, res):
     op.init_dimension_wise(grid, gs, cont, [1] * d, [max(lvv)] * d, a, b, 6)
     with contextlib.redirect_stdout(io.StringIO()):
         op.initialize_evaluation_dimension_wise(cont)
+    if rng.random() < 0.45 and not numeric:
+        # one adaptive iteration computes ALL component grids with the same operation object before the next initialisation: other
+        # grids of the same iteration (same or nearly the same coordinates, other neighbours) are computed first
+        for _ in range(rng.choice([1, 2])):
+            hx, hl = [], []
+            for k in range(d):
+                P_, L_ = trees.variant(rng, xs[k], levs[k]) if rng.random() < 0.7 else (list(xs[k]), list(levs[k]))
+                hx.append([float(x) for x in P_])
+                hl.append([int(x) for x in L_])
+            try:
+                with contextlib.redirect_stdout(io.StringIO()):
+                    if rng.random() < 0.5:
+                        op.calculate_B_dimension_wise(op.data, hx, hl)
+                    else:
+                        op.calculate_operation_dimension_wise(hx, hl, ComponentGridInfo([max(l) + 1 for l in hl], 1))
+                res.count("other_grids_of_the_same_iteration_first")
+            except (AssertionError, ValueError, IndexError, np.linalg.LinAlgError):
+                pass
+        cfg["history_same_iteration"] = True
     G = demodel.gram(xs)
     R = np.asarray(op.build_R_matrix_dimension_wise(xs, levs), dtype=float)
     tolR = 1e-8 if numeric else 1e-13
